@@ -1,6 +1,7 @@
 package main
 
 import (
+	"os"
 	"fmt"
 	"strings"
 
@@ -34,7 +35,7 @@ func init() {
 		sub := &Ctx{W: w, FnsSeen: map[string]bool{}}
 		sub.BoundsObligations(fn, "R-BOUNDS", nil)
 		for _, o := range sub.Obls {
-			if o.Verdict != "discharged" {
+			if o.Verdict != "discharged" || (os.Getenv("ZV_FM") != "" && strings.Contains(o.Detail, "Fourier")) {
 				fmt.Printf("%s %s @%s\n   %s\n", o.Verdict, o.Construct, o.Pos, o.Detail)
 			}
 		}
